@@ -4,8 +4,9 @@
    goroutine, never assigns to (or through) a package-level variable, never takes the address
    of one, and mentions package-level variables only in ways that cannot change them:
    error sentinels anywhere; basic values anywhere (they are copied); arrays, structs, maps,
-   slices and everything of unknown shape only in reads (index, field, range, len); function
-   values only in calls. *)
+   slices and everything of unknown shape only in reads (index, field, range, len, or their
+   address handed to a function of these files whose parameter is only read); function values
+   only in calls. *)
 From Coq Require Import List String Bool.
 Import ListNotations.
 From Rules Require SourceFacts.
@@ -21,6 +22,7 @@ Definition kind_of (n : string) : string :=
 
 Definition use_ok (kind ctx : string) : bool :=
   if String.eqb kind "sentinel" then true
+  else if String.eqb ctx "addr-readonly" then true   (* the address goes to a parameter that is only read *)
   else if String.eqb kind "basic" then mem ctx ["index-read"; "field-read"; "range"; "len"; "other"]
   else if String.eqb kind "func" then mem ctx ["call"; "other"]
   else mem ctx ["index-read"; "field-read"; "range"; "len"].
